@@ -31,6 +31,7 @@ type Env struct {
 
 // Summary is the merged result of a run.
 type Summary struct {
+	schedSteps int
 	Sub        int
 	Evaluated  int
 	States     map[uint64]struct{}
@@ -412,6 +413,9 @@ func Finish(c *Check, env *Env, sum *Summary) int {
 	if c.Level == "model_checking" {
 		cov["states"] = len(sum.States)
 		cov["transitions"] = len(sum.Trans)
+		if sum.schedSteps > 0 {
+			cov["transitions"] = sum.schedSteps // executed scheduling steps of the real code
+		}
 		cov["traces_validated_against_impl"] = sum.Evaluated
 	}
 	if c.Bounds != nil {
@@ -441,7 +445,7 @@ func Finish(c *Check, env *Env, sum *Summary) int {
 	os.WriteFile(filepath.Join(env.Root, "evidence", c.ID+".json"), append(b, '\n'), 0o644)
 
 	fmt.Printf("%s %s: cases=%d states=%d transitions=%d distinct=%d outcomes=%d complete=%v violations=%d known=%d engine_errors=%d wall=%.1fs\n",
-		c.ID, env.Tier, sum.Evaluated, len(sum.States), len(sum.Trans), len(sum.Keys), len(sum.Outcomes), sum.Complete, len(unknown), len(sum.Violations)-len(unknown), len(sum.Engine), wall)
+		c.ID, env.Tier, sum.Evaluated, len(sum.States), max(len(sum.Trans), sum.schedSteps), len(sum.Keys), len(sum.Outcomes), sum.Complete, len(unknown), len(sum.Violations)-len(unknown), len(sum.Engine), wall)
 	if len(unknown) > 0 {
 		return 1
 	}
@@ -483,9 +487,12 @@ func Replay(path string) int {
 		fmt.Fprintln(os.Stderr, "unknown property", v.Property)
 		return 2
 	}
-	if c.Custom != nil {
-		fmt.Fprintln(os.Stderr, "replay of scheduled checks: use `verif sched-replay`")
-		return 2
+	if strings.HasPrefix(v.Family, "sched:") {
+		root := os.Getenv("VERIF_ROOT")
+		if root == "" {
+			root = "/verif"
+		}
+		return SchedReplay(root, v)
 	}
 	want, _ := json.Marshal(v.Desc)
 	code := 2
